@@ -19,6 +19,10 @@ Step(e) ==
     \/ e.op = "get"        /\ Get(e.id, e.ok, e.d)
     \/ e.op = "remove"     /\ e.ok  /\ Remove(e.id)
     \/ e.op = "remove"     /\ ~e.ok /\ RemoveRefused(e.id)
+    \/ e.op = "remove_batch" /\ e.ok  /\ RemoveBatch(e.ids, e.n)
+    \/ e.op = "remove_batch" /\ ~e.ok /\ RemoveBatchRefused(e.ids)
+    \/ e.op = "get_batch"  /\ GetBatch(e.ids, e.ok, e.r)
+    \/ e.op = "iter_ids"   /\ IterIds(e.r)
     \/ e.op = "contains"   /\ Contains(e.id, e.r)
     \/ e.op = "size"       /\ Size(e.id, e.ok, e.r)
     \/ e.op = "len"        /\ Len_(e.r)
